@@ -251,6 +251,7 @@ class BoundedStream:
                     # NOTE(kgriffs): The ASGI spec states that 'body' is optional.
                     num_bytes = 0
 
+                num_bytes = min(num_bytes, self._bytes_remaining)
                 self._bytes_remaining -= num_bytes
                 self._pos += num_bytes
 
